@@ -321,6 +321,20 @@ pub struct St {
 
 /// Set by the framework before every case (one case at a time per process): decides per case what stores built during it do.
 pub static CASE_SEED: std::sync::atomic::AtomicU64 = std::sync::atomic::AtomicU64::new(0);
+pub static RECORD_LANGS_ON: std::sync::atomic::AtomicBool = std::sync::atomic::AtomicBool::new(false);
+pub static RECORD_LANGS: std::sync::Mutex<std::collections::BTreeMap<usize, &'static str>> = std::sync::Mutex::new(std::collections::BTreeMap::new());
+/// Declares (for the running case) which record ids are prepared by which language; `&[]` ends it.
+pub fn set_record_langs(pairs: &[(usize, &'static str)]) {
+    let mut g = match RECORD_LANGS.lock() {
+        Ok(g) => g,
+        Err(p) => p.into_inner(),
+    };
+    g.clear();
+    for (id, l) in pairs {
+        g.insert(*id, *l);
+    }
+    RECORD_LANGS_ON.store(!pairs.is_empty(), std::sync::atomic::Ordering::Relaxed);
+}
 pub static ST_SEQ: std::sync::atomic::AtomicU64 = std::sync::atomic::AtomicU64::new(0);
 pub static QUERY_BUFFER_REUSES: std::sync::atomic::AtomicU64 = std::sync::atomic::AtomicU64::new(0);
 pub static FOREIGN_QUERIES: std::sync::atomic::AtomicU64 = std::sync::atomic::AtomicU64::new(0);
@@ -359,6 +373,21 @@ impl St {
         st
     }
     pub fn add(&mut self, r: &Rec) {
+        // (a case may declare that certain record ids are prepared by ANOTHER language than the store's - `Store::add` takes any
+        // `Record`, `Record::new` any language; every store built during that case then holds that record in that tokenisation)
+        if RECORD_LANGS_ON.load(std::sync::atomic::Ordering::Relaxed) {
+            let over = match RECORD_LANGS.lock() {
+                Ok(g) => g.get(&r.0).copied(),
+                Err(p) => p.into_inner().get(&r.0).copied(),
+            };
+            if let Some(l) = over {
+                if l != self.lang {
+                    let rec = with_lang(l, |lo| Record::new(r.0, &r.1, r.2, lo));
+                    self.store.add(rec);
+                    return;
+                }
+            }
+        }
         let rec = Record::new(r.0, &r.1, r.2, &self.store.lang);
         self.store.add(rec);
     }
